@@ -70,6 +70,7 @@ type e2eCase struct {
 	LateN           int      `json:"late_lookups"`
 	Traffic         bool     `json:"traffic"` // besides the solicitations: a foreign RA with the M flag flipped (and one with hop limit 64) on advertising interfaces; an RA, its hop-limit-64 copy and an RS on monitoring interfaces; /metrics is read again afterwards
 	Unspec          bool     `json:"unspec"`  // with Traffic: a solicitation from :: as well; the second scrape waits for the multicast RA that answers it (3 s after the initial RA)
+	Flip            bool     `json:"flip"`    // the forwarding state of every interface is inverted once the process is up; API and /metrics are read again, and a solicitation 1.2 s after start is answered with the new state
 }
 
 type e2eProbe struct {
@@ -87,6 +88,8 @@ type e2eRun struct {
 	Notes                     []string
 	Probes                    []e2eProbe
 	Metrics, Metrics2         e2eProbe
+	FlipAt                    time.Time
+	FlipProbe, FlipMetrics    e2eProbe
 	ReadyNote                 bool   // READY=1 seen before the signal was sent
 	Hung                      string // non-empty: the process had to be killed (why)
 	FailIface                 string // the interface whose task fails by itself (fail mode)
@@ -167,6 +170,9 @@ func e2eExecute(c e2eCase, cfg rConfig) (*e2eRun, error) {
 			// another router's RA: ours with the M flag flipped and no options -> exactly one inconsistency
 			foreign := &ndp.RouterAdvertisement{CurrentHopLimit: uint8(ri.HopLimit), ManagedConfiguration: !ri.Managed, OtherConfiguration: ri.Other, RouterLifetime: 1800 * time.Second}
 			vi.RS = append(vi.RS, system.VkRS{AfterMS: 40, From: "fe80::99", Hop: 255, Wire: e2eWire(foreign)}, system.VkRS{AfterMS: 45, From: "fe80::98", Hop: 64, Wire: e2eWire(foreign)})
+		}
+		if c.Flip && ri.Advertise {
+			vi.RS = append(vi.RS, system.VkRS{AfterMS: 1200, From: "fe80::abd", Hop: 255})
 		}
 		if c.Traffic && c.Unspec && ri.Advertise && !ri.UnicastOnly {
 			vi.RS = append(vi.RS, system.VkRS{AfterMS: 50, From: "::", Hop: 255})
@@ -408,6 +414,32 @@ func e2eExecute(c e2eCase, cfg rConfig) (*e2eRun, error) {
 	if wantReady {
 		run.Probes = append(run.Probes, get("/_/api/interfaces"))
 		run.Metrics = get("/metrics")
+		if c.Flip {
+			for i, ri := range cfg.Interfaces {
+				v := "1"
+				if stFor(c.State, i).Fwd {
+					v = "0"
+				}
+				_ = os.WriteFile(w.Log+".fwd."+ri.Name, []byte(v), 0o644)
+			}
+			run.FlipAt = time.Now()
+			run.FlipProbe = get("/_/api/interfaces")
+			run.FlipMetrics = get("/metrics")
+			// the solicitation scripted for 1.2 s after the start is answered under the new state
+			for time.Now().Before(deadline) {
+				b, _ := os.ReadFile(w.Log)
+				need := 0
+				for _, ri := range cfg.Interfaces {
+					if ri.Advertise {
+						need++
+					}
+				}
+				if bytes.Count(b, []byte(`"dst":"fe80::abd"`)) >= need {
+					break
+				}
+				time.Sleep(20 * time.Millisecond)
+			}
+		}
 		if c.Traffic {
 			// every scripted message has been read (the handlers run right after the read): a second scrape
 			for time.Now().Before(deadline) {
@@ -682,7 +714,15 @@ func e2eCompare(sig, what string, lo, hi *ndp.RouterAdvertisement, got []e2eItem
 // after the epoch (hi values) and as late as possible (lo values), given that
 // it was built within [tLo, tHi] and the epoch lies within [run.Spawn, run.Ready].
 func e2eExpect(c e2eCase, run *e2eRun, i int, tLo, tHi time.Time) (lo, hi *ndp.RouterAdvertisement, fails bool) {
+	return e2eExpectFwd(c, run, i, tLo, tHi, false)
+}
+
+// e2eExpectFwd: as e2eExpect, with the forwarding state inverted if flipped.
+func e2eExpectFwd(c e2eCase, run *e2eRun, i int, tLo, tHi time.Time, flipped bool) (lo, hi *ndp.RouterAdvertisement, fails bool) {
 	st := stFor(c.State, i)
+	if flipped {
+		st.Fwd = !st.Fwd
+	}
 	var v6 []system.IP
 	for _, a := range st.Addrs {
 		if a.Address.Addr().Is6() && !a.Address.Addr().Is4In6() {
@@ -1108,6 +1148,96 @@ func e2eTraffic(pfx string, monitor, inconsistency, counters bool) e2eOracle {
 		}
 		return nil
 	}
+}
+
+// oracleC04: the forwarding state of a running process changes; every path that generates an RA follows.
+func oracleC04(c e2eCase, run *e2eRun) error {
+	if !c.Flip || c.Early || c.PortBusy || len(c.Missing) > 0 || run.Hung != "" || run.FailIface != "" || run.RecoverIface != "" || run.FlipAt.IsZero() {
+		return nil
+	}
+	d := func() string { return e2eDesc(c, run) }
+	if run.FlipProbe.Status == 0 || (c.Prom && run.FlipMetrics.Status == 0) {
+		return e2eSkip{"a request after the forwarding change got no HTTP answer"}
+	}
+	var body struct {
+		Interfaces []struct {
+			Interface     string          `json:"interface"`
+			Advertisement json.RawMessage `json:"advertisement"`
+		} `json:"interfaces"`
+	}
+	if run.FlipProbe.Status != 200 || json.Unmarshal(run.FlipProbe.Body, &body) != nil || len(body.Interfaces) != len(run.Ifaces) {
+		return verifkit.Violf("C04main/api", "debug API after the forwarding change: status %d %s\n%s", run.FlipProbe.Status, firstN(string(run.FlipProbe.Body), 300), d())
+	}
+	for i, ri := range run.Ifaces {
+		if !ri.Advertise {
+			continue
+		}
+		lo, hi, fails := e2eExpectFwd(c, run, i, run.FlipProbe.Q, run.FlipProbe.R, true)
+		if fails {
+			return nil
+		}
+		items, err := e2eAPIItems(body.Interfaces[i].Advertisement)
+		if err != nil {
+			return verifkit.Violf("C04main/api", "%q: %v\n%s", ri.Name, err, d())
+		}
+		if err := e2eCompare("C04main/api-ignores-forwarding-change", fmt.Sprintf("debug API after the forwarding state of %q became %v", ri.Name, !stFor(c.State, i).Fwd), lo, hi, items, true); err != nil {
+			return fmt.Errorf("%w\n%s", err, d())
+		}
+		// the wire: RAs generated before the change carry the old state, those generated after it the new one
+		var openAt time.Time
+		for _, e := range run.Events {
+			if e.Ev == "open" && e.Iface == ri.Name {
+				openAt = time.Unix(0, e.TNS)
+				break
+			}
+		}
+		for j, e := range e2eWrites(run, ri.Name) {
+			ra, err := e2eDecode(e)
+			if err != nil {
+				return verifkit.Violf("C04main/wire", "%q: %v\n%s", ri.Name, err, d())
+			}
+			at := time.Unix(0, e.TNS)
+			var candidates []bool
+			switch {
+			case at.Before(run.FlipAt.Add(-50 * time.Millisecond)):
+				candidates = []bool{false}
+			case at.After(run.FlipAt.Add(50 * time.Millisecond)):
+				candidates = []bool{true}
+			default:
+				candidates = []bool{false, true} // generated around the change: either state
+			}
+			var last error
+			for _, fl := range candidates {
+				lo, hi, _ := e2eExpectFwd(c, run, i, openAt, at, fl)
+				if ra.RouterLifetime == 0 && c.Sig != "HUP" && at.After(run.SigAt) {
+					lo.RouterLifetime, hi.RouterLifetime = 0, 0
+				}
+				if last = e2eCompare("C04main/wire-ignores-forwarding-change", fmt.Sprintf("RA %d on %q to %s, %v relative to the forwarding change", j, ri.Name, e.Dst, at.Sub(run.FlipAt)), lo, hi, e2eRAItems(ra), false); last == nil {
+					break
+				}
+			}
+			if last != nil {
+				return fmt.Errorf("%w\n%s", last, d())
+			}
+		}
+	}
+	if c.Prom {
+		if run.FlipMetrics.Status != 200 {
+			return verifkit.Violf("C04main/metrics", "GET /metrics after the forwarding change -> %d\n%s", run.FlipMetrics.Status, d())
+		}
+		got := e2eParseProm(run.FlipMetrics.Body, map[string][]string{"corerad_interface_forwarding": {"interface"}, "corerad_advertiser_misconfiguration": {"interface", "details"}})
+		for i, ri := range run.Ifaces {
+			fwd := !stFor(c.State, i).Fwd
+			if v, ok := got["corerad_interface_forwarding"][ri.Name]; !ok || (v == 1) != fwd {
+				return verifkit.Violf("C04main/forwarding-gauge", "interface_forwarding{%s} = %v (present %v) after the state became %v\n%s", ri.Name, v, ok, fwd, d())
+			}
+			_, mis := got["corerad_advertiser_misconfiguration"][ri.Name+"|interface_not_forwarding"]
+			if want := ri.Advertise && !fwd && ri.DefaultLifetime > 0; mis != want {
+				return verifkit.Violf("C04main/misconfiguration-gauge", "interface_not_forwarding{%s} present=%v, want %v (forwarding %v, lifetime %v)\n%s", ri.Name, mis, want, fwd, ri.DefaultLifetime, d())
+			}
+		}
+	}
+	return nil
 }
 
 // oracleC11: what is left behind in the operating system when the process has ended.
@@ -1732,6 +1862,21 @@ func TestVerif_C12main(t *testing.T) {
 }
 func TestVerif_C07main(t *testing.T) {
 	e2eTrafficTest(t, "C07", e2eTraffic("C07main", false, false, true))
+}
+
+func e2eGenFlip(t *rapid.T) e2eCase {
+	c := e2eGenMode(false, false)(t)
+	c.Early, c.Missing, c.FailIdx, c.LateIdx, c.FailRecoverable = false, nil, 0, 0, false
+	c.Flip, c.Solicit, c.WaitMS = true, rapid.Bool().Draw(t, "flip-solicit"), 0
+	return c
+}
+
+func TestVerif_C04main(t *testing.T) {
+	k := verifkit.Start(t, "C04")
+	k.WholeProcess = true
+	prop := e2eProp(k, "C04", oracleC04)
+	k.Regress(t, func(sub string, raw json.RawMessage) error { return verifkit.Decode(raw, prop) })
+	verifkit.Rapid(k, t, "whole-process", k.N(24, 1200), e2eGenFlip, prop)
 }
 
 func TestVerif_C11main(t *testing.T) {
